@@ -16,7 +16,7 @@ def run(chk, tier):
     # beyond 300: lengths around the points where the round counter (2n rounds, n = ceil(len/16)) crosses a byte
     # boundary (256 rounds at 2033 bytes, 512 at 4081) — a truncated counter is invisible below them — plus odd tails
     big = [512, 1000, 2032, 2033, 2047, 2049, 4080, 4081, 4096, 5003]
-    lens = list(range(0, 301)) + (big if quick else big + [1024, 1025, 4095, 8191, 8192, 12345, 16400, 33000])
+    lens = list(range(0, 301)) + (big if quick else big + [1024, 1025, 4095, 4097, 8191, 8192])
     for L in lens:
         for i in range((2 if quick else 30) if L <= 300 else (1 if quick else 3)):
             k = r.structured(32) if i % 2 else r.bytes(32)
